@@ -203,6 +203,7 @@ def atEnd (p : Params) (s : St) (b : Book) (fin : Option Final) (e : EndInfo) : 
       (if f.counts.idle < 1 && busy < f.counts.conc.toNat then [s!"running and quiescent with {f.counts.idle} idle workers"] else [])
       ++ (if f.counts.idle.toNat + busy > max s.maxLim 1 then [s!"{f.counts.idle} idle + {busy} busy worker goroutines exceed the largest limit {s.maxLim}"] else [])
       ++ (if f.liveLib > expected then [s!"{f.liveLib} library goroutines alive while running, expected at most {expected} (leak)"] else [])
+      ++ (if f.liveLib < expected then [s!"{f.liveLib} library goroutines alive while running with {f.counts.idle} idle and {busy} busy workers, expected {expected}: a worker in the pool has no goroutine"] else [])
     | some .paused =>
       (if f.liveLib > expected then [s!"{f.liveLib} library goroutines alive while paused, expected at most {expected} (leak)"] else [])
     | some .stopped =>
@@ -213,6 +214,9 @@ def atEnd (p : Params) (s : St) (b : Book) (fin : Option Final) (e : EndInfo) : 
 def check (p : Params) (tr : List Obs) (e : EndInfo) : List Viol :=
   let (s, b, vs) := foldCheck ({ maxLim := p.conc } : St) onEvent tr
   vs ++ atEnd p s b (finalOf tr) e
+  -- retiring idle workers (and TunePool) must not lose or strand a job: with an idle expiry
+  -- configured, C01's "every accepted job is started" is part of this property
+  ++ (if p.expiry then (C01.check p tr e).map (fun v => "with idle-worker expiry: " ++ v) else [])
 end C18
 
 -- ===================================================================== C08 batches
